@@ -9,7 +9,9 @@ ID = 'C05'
 LEVEL = 'exploration'
 ENGINE = 'vf'
 TECHNIQUE = ('property-based testing (Hypothesis) of generated multi-loop programs x generated schedules '
-             '(sparse/line-targeted/PCT/walk) under a deterministic simulation kernel; history-invariant oracle')
+             '(sparse/line-targeted/PCT/walk) under a deterministic simulation kernel; history-invariant oracle'
+             '; plus eight enumerated real-thread cases (own process each): a cyclic garbage collection that starts inside the '
+             'wrapper\'s locked block while abandoned computations of closed loops wait to be freed')
 ASSUMPTIONS = ['cooperative shims (Lock, ThreadPoolExecutor, virtual-time loop) are faithful to the real primitives (vf/selftest)',
                'interleavings explored at source-line granularity of aiuti/asyncio.py and asyncio/runners.py',
                'wrapped function never swallows cancellation; loops are not restarted with a call pending except by asyncio.run shutdown']
@@ -27,7 +29,6 @@ RULE = ('cases: as C01 plus more failing/cancelled invocations, caller cancels/t
         'non-trivial: a cross-loop waiter existed while a computation was open, or a loop exited with an invocation open and a '
         'foreign caller of that key present; distinct by case hash')
 ESSENTIAL = ['cross-loop-wait', 'left-pending', 'inv-failed']
-ASSUMPTIONS_EXTRA = 'plus eight real-thread cases (own process each) in which a cyclic garbage collection starts inside the locked block while abandoned computations of closed loops wait to be freed'
 
 
 ENUM_EXHAUSTIVE = {'quick': 'every single-preemption schedule (decision index x target thread) of the canonical small programs in cache_common.canonical_programs',
